@@ -207,7 +207,7 @@ def case_line(cap, sub, scripts, msgs):
 
 def coq_item(it):
     k, v = it[0], it[1:]
-    if k in "iu": return "(RInt %s)" % coq_Z(int(v))
+    if k in "iu": return "(Response.RInt %s)" % coq_Z(int(v))
     if k == "b": return "(RBool %s)" % ("true" if v == "1" else "false")
     if k == "s": return "(RStr %s)" % coq_bytes(unhex(v))
     if k == "a": return "(RBlock %s)" % coq_bytes(unhex(v))
@@ -215,7 +215,7 @@ def coq_item(it):
     if k == "x": return "(RExpr %s)" % coq_bytes(unhex(v))
     if k == "E": return "(RErrItem %s)" % coq_error(v)
     if k in "HQB": return "(RRadix %d %s)" % ({"H": 16, "Q": 8, "B": 2}[k], v)
-    if k == "l": return "(RList %s)" % coq_list([] if v == "-" else ["(RInt %s)" % coq_Z(int(x)) for x in v.split(",")])
+    if k == "l": return "(RList %s)" % coq_list([] if v == "-" else ["(Response.RInt %s)" % coq_Z(int(x)) for x in v.split(",")])
     if k == "X": return "(RFailing %s)" % coq_Z(int(v))
     raise ValueError(it)
 
@@ -233,14 +233,14 @@ def coq_ops(ops):
             rq, sw = ("true" if k in "rR" else "false", "true" if k in "RO" else "false")
             if v:
                 if v[1:] not in PTY: raise ValueError("typed pull %s is implementation-only" % v)
-                t.append("SPullT %s %s (%s)" % (rq, sw, PTY[v[1:]]))
+                t.append("Scripted.SPullT %s %s (%s)" % (rq, sw, PTY[v[1:]]))
             else:
-                t.append("SPull %s %s" % (rq, sw))
-        elif k == "h": t.append("SHdr %s" % coq_bytes(unhex(v)))
-        elif k == "d": t.append("SData %s" % coq_item(v))
-        elif k == "F": t.append("SFail %s" % coq_error(v))
-        elif k == "K": t.append("SRetOk")
-        elif k == "N": t.append("SRetFinish")
+                t.append("Scripted.SPull %s %s" % (rq, sw))
+        elif k == "h": t.append("Scripted.SHdr %s" % coq_bytes(unhex(v)))
+        elif k == "d": t.append("Scripted.SData %s" % coq_item(v))
+        elif k == "F": t.append("Scripted.SFail %s" % coq_error(v))
+        elif k == "K": t.append("Scripted.SRetOk")
+        elif k == "N": t.append("Scripted.SRetFinish")
         else: raise ValueError(o)
     return coq_list(t)
 
